@@ -12,7 +12,7 @@ pid,d=sys.argv[1],sys.argv[2]
 for l in open('/verif/properties.jsonl'):
     p=json.loads(l)
     if p['id']==pid: break
-print(f"""You are a careful Rust engineer playing the role of a *fault seeder* for a verification study. You have your own scratch git worktree of the repository hydro-project/hydro (pinned commit) at `{d}/repo` — work ONLY inside `{d}` (never touch `/repo` or `/verif`, never read `/verif`). The sandbox is offline: use `cargo ... --offline` (env `CARGO_NET_OFFLINE=true`); everything needed is in the local cargo cache; set `CARGO_TARGET_DIR={d}/target` so build output stays inside your scratch directory (the machine is shared and busy: build only the crates you need with `-p`, never the whole workspace).
+print(f"""You are a careful Rust engineer playing the role of a *fault seeder* for a verification study. You have your own scratch git worktree of the repository hydro-project/hydro (pinned commit) at `{d}/repo` — work ONLY inside `{d}` (never touch `/repo` or `/verif`, never read `/verif`). The sandbox is offline: use `cargo ... --offline` (env `CARGO_NET_OFFLINE=true`); everything needed is in the local cargo cache; set `CARGO_TARGET_DIR={d}/target` so build output stays inside your scratch directory (the machine is shared and busy: build only the crates you need with `-p`, never the whole workspace). The worktree shares its git metadata with other people's worktrees: use only `git diff`, `git apply`, `git apply -R` and `git checkout -- .` there — never `git stash`, `git commit`, `git branch`, `git reset` or `git worktree`.
 
 Here is a semantic property of the repository that should hold (JSON record: title, statement, quantifier, why ordinary tests cannot settle it, anchors = where in the code it lives):
 
